@@ -144,6 +144,14 @@ static void print_hex(const uint8_t *p, size_t n)
         for (i = 0; i < n; i++) printf("%02x", p[i]);
 }
 
+/* trigger through the documented wrappers when the type allows it (so that they are exercised too) */
+static cat_status do_trigger(struct cat_command const *cmd, cat_cmd_type type)
+{
+        if (type == CAT_CMD_TYPE_READ) return cat_trigger_unsolicited_read(&at, cmd);
+        if (type == CAT_CMD_TYPE_TEST) return cat_trigger_unsolicited_test(&at, cmd);
+        return cat_trigger_unsolicited_event(&at, cmd, type);
+}
+
 static int cmd_index(const struct cat_command *cmd)
 {
         int i;
@@ -186,7 +194,7 @@ static void apply_side_effects(struct res *r)
         }
         for (i = 0; i < r->ncalls; i++) {
                 if (r->call_kind[i] == 'T') {
-                        cat_status s = cat_trigger_unsolicited_event(&at, pool_ptr[r->call_a[i]], (cat_cmd_type)r->call_b[i]);
+                        cat_status s = do_trigger(pool_ptr[r->call_a[i]], (cat_cmd_type)r->call_b[i]);
                         printf("I t %d %d = %d\n", r->call_a[i], r->call_b[i], (int)s);
                 } else {
                         cat_status s = cat_hold_exit(&at, (cat_status)r->call_a[i]);
@@ -510,7 +518,7 @@ static void run_op(void)
                 after_op();
         } else if (strcmp(o, "t") == 0) {
                 if (use_mutex) take_snapshot();
-                ret("t", (int)cat_trigger_unsolicited_event(&at, pool_ptr[atoi(tok[1])], (cat_cmd_type)atoi(tok[2])));
+                ret("t", (int)do_trigger(pool_ptr[atoi(tok[1])], (cat_cmd_type)atoi(tok[2])));
         } else if (strcmp(o, "x") == 0) {
                 if (use_mutex) take_snapshot();
                 ret("x", (int)cat_hold_exit(&at, (cat_status)atoi(tok[1])));
